@@ -11,7 +11,7 @@ from matched_markets.methodology import tbrdiagnostics
 ID = 'C19'
 LEVEL = 'exploration'
 RULE = ('Engine A: frames with G in {2,3,4,5,6} geos (>= 4 needed for the noisy-geo screen) x 5 | 8 trends x planted noisy geo in '
-        '{none, each position} x planted outlier date in {none, three positions} x default / custom column names and group labels x extra geos outside the experiment in {none, unassigned label, another label, both}; '
+        '{none, each position} x planted outlier date in {none, three positions} x default / custom column names and group labels x extra geos outside the experiment in {none, unassigned label, another label, both} x twin geos (exact ties within a group on every date); '
         'each frame is fitted in 3 row orders, once with repeated (non-unique) row index labels, once on an object that has already screened ANOTHER data set, and with the date column as ISO strings / as datetime.date objects. Oracle (consistency, not prediction): get_data() == input rows minus every row of '
         'the reported noisy geos and of the reported outlier dates (as multisets of rows); get_analysis_data() == per-date control '
         '/ treatment totals of that; the caller\'s frame is unchanged; reported results identical for all row orders. '
@@ -20,7 +20,7 @@ ASSUMPTIONS = ['what counts as noisy / outlier is the library\'s decision (not r
                'integer-valued responses, 14 pre-test + 4 test dates']
 
 
-def frame(G, npre, ntest, seed, noisy, outlier, custom, others=None):
+def frame(G, npre, ntest, seed, noisy, outlier, custom, others=None, twins=False):
     n = npre + ntest
     trend = frames.shape('walk', n, seed) * 2 + np.array(frames.lcg_noise(seed + 5, n, 0, 2), float)
     dates = pd.date_range('2020-01-01', periods=n)
@@ -35,6 +35,13 @@ def frame(G, npre, ntest, seed, noisy, outlier, custom, others=None):
             if outlier is not None and i == outlier and g % 2 == 1:
                 v += 40 * (g + 1)
             rows.append(dict(date=d, geo=g, group=1 + (g % 2), period=0 if i < npre else 1, response=float(v)))
+    if twins:
+        # one market reported as two equal halves: geos 50/52 copy geo 0 (same group, same values on every date) and geos
+        # 51/53 copy geo 1 - exact ties across geos of one group on every date; small integer counts tie by themselves
+        for src, new in ((0, 50), (1, 51), (0, 52), (1, 53)):
+            if src < G:
+                for r in [r for r in rows if r['geo'] == src]:
+                    rows.append(dict(r, geo=new))
     # geos that take no part in the experiment: labelled 'unassigned' (-1) or with some other label (0 = e.g. excluded market)
     for j, lab in enumerate({'unassigned': [-1], 'other-label': [0], 'both': [-1, 0, 0]}.get(others, [])):
         big = frames.lcg_noise(300 * seed + j + 11, n, 50, 400)
@@ -65,6 +72,8 @@ def cases(tier, seed):
                         if tier != 'thorough' and custom and (noisy is not None and outlier is not None):
                             continue
                         out.append({'G': G, 'seed': s + 10 * seed, 'noisy': noisy, 'outlier': outlier, 'custom': custom})
+                        if noisy is None and not custom:
+                            out.append({'G': G, 'seed': s + 10 * seed, 'noisy': noisy, 'outlier': outlier, 'custom': custom, 'twins': True})
                         for others in ('unassigned', 'other-label', 'both'):
                             if tier == 'thorough' or (not custom and (noisy in (None, 1)) == (others != 'both')):
                                 out.append({'G': G, 'seed': s + 10 * seed, 'noisy': noisy, 'outlier': outlier, 'custom': custom, 'others': others})
@@ -72,7 +81,7 @@ def cases(tier, seed):
 
 
 def run_case(case):
-    df, kw = frame(case['G'], 14, 4, case['seed'], case['noisy'], case['outlier'], case['custom'], case.get('others'))
+    df, kw = frame(case['G'], 14, 4, case['seed'], case['noisy'], case['outlier'], case['custom'], case.get('others'), case.get('twins', False))
     names = dict(geo=kw.get('key_geo', 'geo'), date=kw.get('key_date', 'date'), group=kw.get('key_group', 'group'),
                  resp=kw.get('key_response', 'response'))
     cid, tid = kw.get('group_control', 1), kw.get('group_treatment', 2)
@@ -160,5 +169,5 @@ def replay(case):
 
 
 def explain(case):
-    df, kw = frame(case['G'], 14, 4, case['seed'], case['noisy'], case['outlier'], case['custom'], case.get('others'))
+    df, kw = frame(case['G'], 14, 4, case['seed'], case['noisy'], case['outlier'], case['custom'], case.get('others'), case.get('twins', False))
     return {'frame_rows': df.astype(str).values.tolist()[:60], 'columns': list(df.columns), 'fit_kwargs': kw}
